@@ -19,6 +19,7 @@ TRUSTED_BASE = [
 
 SML_PROOFS = ["SmlNumbers.v", "SmlProofs.v"]
 SML_DEEP = SML_PROOFS + ["LexProofs.v", "ParseProofs.v"]
+SML_LAYOUT = SML_DEEP + ["LayoutProofs.v", "FrameProofs.v"]
 AST_PROOFS = ["FloatProofs.v", "AstProofs.v", "FillProofs.v"]
 FILL_DEEP = ["FillCompose.v", "EllipsisProofs.v", "PrintProofs.v"]
 WIRE_PROOFS = ["HeaderProofs.v", "WireSpec.v", "WireLemmas.v", "WireValues.v", "WireEnc.v", "WireDec.v", "MsgProofs.v"]
@@ -55,7 +56,7 @@ PROPS = {
         rule="all 65,536 session ids through the constructors, all 256 status and reason codes, all 65,536 (PType, SType) pairs through Type() (and a ninth of them, plus PType 0..2 completely, through the decoder); distinct = distinct case texts",
     ),
     "C04": dict(
-        prop_file="props/C04.v", proof_files=SML_PROOFS, tie_files=["TablesTie.v"],
+        prop_file="props/C04.v", proof_files=WIRE_PROOFS + AST_PROOFS + ["FillCompose.v"] + SML_PROOFS + ["TokenProofs.v"], tie_files=["TablesTie.v"],
         suites=["C04"],
         decisive=[],
         assumptions=["float text is strconv's (FormatFloat/ParseFloat), an oracle of the model rendered by the harness",
@@ -76,7 +77,7 @@ PROPS = {
         assumptions=["partial: time (the real lexer is quadratic: lineColumn and per-token regexp compilation) and the Go stack are not modelled; the worker's watchdog and TotalAlloc bound are the observation"],
     ),
     "C08": dict(
-        prop_file="props/C08.v", proof_files=SML_PROOFS, tie_files=["TablesTie.v"],
+        prop_file="props/C08.v", proof_files=SML_LAYOUT, tie_files=["TablesTie.v"],
         suites=["C08"],
         decisive=[],
     ),
@@ -89,7 +90,7 @@ PROPS = {
         rule="exhaustive grid: 14 item types x 4 declaration forms (+ a spaced form) x lower, upper, count in 0..5; overflowing bounds; ASCII variables: 5 declaration forms x bounds 0..4 x fill lengths 0..6",
     ),
     "C19": dict(
-        prop_file="props/C19.v", proof_files=SML_PROOFS, tie_files=["TablesTie.v"],
+        prop_file="props/C19.v", proof_files=SML_LAYOUT, tie_files=["TablesTie.v"],
         suites=["C19"],
         decisive=[],
     ),
